@@ -143,11 +143,12 @@ func (l *Log) childCanceled(from, pos int) []int {
 		return nil
 	}
 	tag := simrt.Tag()
+	me := simrt.Current()
 	var out []int
 	for k := from + 1; k < len(l.Ev); k++ {
 		e := &l.Ev[k]
-		if e.Kind != EvProbeEnter || e.Pos != pos || e.Exec != tag {
-			continue
+		if e.Kind != EvProbeEnter || e.Pos != pos || e.Exec != tag || !simrt.IsAncestor(me, e.Task) {
+			continue // only calls made on behalf of this call: their execution copies were created by this task
 		}
 		if c, ok := e.Ref.(interface{ IsCanceled() bool }); ok && c.IsCanceled() {
 			out = append(out, e.Seq)
